@@ -23,6 +23,14 @@ def check(ctx):
     scope = _http.parse_scope(ctx)
     ctx.floor("scope", len(scope), 15)
     _http.delete_discipline(ctx, "T1-consume")
+    ctx.rule("T1-scan", "delimiter searches cover the whole unconsumed buffer (resume offsets reset on consumption and back up over a straddling delimiter)")
+    ctx.rule("T1-wait", "a buffer prefix is read only after the parser established that many bytes are present")
+    _http.scan_offsets(ctx, "T1-scan")
+    _http.wait_before_read(ctx, "T1-wait")
+    ctx.rule("T-gen", "a closed line/leader/chunk generator is never resumed (interim 100 Continue, chunk loops)")
+    ctx.rule("D-bakey", "bytearray slices of the receive buffer are not used as mapping keys (chunk extensions, trailers)")
+    ctx.floor("T-gen:sites", _http.generator_typestate(ctx, "T-gen", scope), 8)
+    ctx.floor("D-bakey:keys", _http.bytearray_keys(ctx, "D-bakey", scope), 2)
     _http.fixed_arity_unpacks(ctx, "D-unpack", scope)
     pl = ctx.fn("aio.http.httping", "parseLeader")
     t = src(pl)
